@@ -18,9 +18,10 @@ from vlib.core import VERIF_DIR, HarnessError, Info, Skip, Sub, fail
 PROPERTY = "C08"
 LEVEL = "exploration"
 RULE = (
-    "(names) every class-name string of length 0-3 (quick) / 0-4 (thorough) over the 14-symbol alphabet {a Z 0 _ . - space newline e-acute / : NUL "
-    "fullwidth-A arabic-3} is put into an otherwise well-formed descriptor nested in a list in a dict; (random) Hypothesis names over full Unicode, "
-    "canary paths (modules under fuzz/canary whose import or construction is recorded) with one injected invalid character, and malformed "
+    "(names) every class-name string of length 0-3 (quick) / 0-4 (thorough) over the 16-symbol alphabet {a Z 0 _ . - space newline e-acute / : NUL "
+    "fullwidth-A arabic-3 long-s kelvin-sign} is put into an otherwise well-formed descriptor nested in a list in a dict; (random) Hypothesis names over full Unicode, "
+    "canary paths (modules under fuzz/canary whose import or construction is recorded) with one injected invalid character or with characters "
+    "replaced by non-ASCII ones that case folding / NFKC turn into them, and malformed "
     "descriptors of every JSON type and length 0-3, placed at generated depths of requests and replies, decoded on the client (loads) and on the "
     "server (_marshaled_dispatch); (off) the same payloads naming valid canaries with use_jsonclass disabled. Observers: sys.addaudithook import "
     "events, wrappers around builtins.__import__ / importlib.import_module recording calls from jsonrpclib frames, canary import/construction "
@@ -35,9 +36,9 @@ ASSUMPTIONS = [
     "observers see imports through the audit hook (uncached modules) and through wrappers of __import__/import_module (any module); a C-level import bypassing both is not observable",
     "canary modules live under /verif/fuzz/canary, which is put on sys.path",
 ]
-EXHAUSTIVE = ["class names of length <= 3 (quick) / <= 4 (thorough) over the 14-symbol alphabet"]
+EXHAUSTIVE = ["class names of length <= 3 (quick) / <= 4 (thorough) over the 16-symbol alphabet"]
 
-ALPHA = ["a", "Z", "0", "_", ".", "-", " ", "\n", "é", "/", ":", "\0", "Ａ", "٣"]
+ALPHA = ["a", "Z", "0", "_", ".", "-", " ", "\n", "é", "/", ":", "\0", "Ａ", "٣", "\u017f", "\u212a"]
 VALID = re.compile(r"\A[A-Za-z0-9_.]+\Z")
 CANARIES = ["vcanary.Cls", "vcanarypkg.sub.Deep"]
 
@@ -212,7 +213,17 @@ def _check_on(name, args, depth, side, version=2.0, spell=0, outer=None):
     else:
         registry = refmodel.Registry()
         disp, dm, registry, cfg = refmodel.make_dispatcher(version, True, "funcs", registry)
-        text = respell(json.dumps({"jsonrpc": "2.0", "id": 1, "method": "echo", "params": [payload]}), spell)
+        # the form of the carrying request must not matter (it is drawn from the case data): a 2.0 call, a 1.0 call, a
+        # notification of either version, by-name parameters, the id member
+        form = (sum(map(ord, name)) + depth + len(args)) % 7 if isinstance(name, str) else 0
+        req = [{"jsonrpc": "2.0", "id": 1, "method": "echo", "params": [payload]},
+               {"id": 1, "method": "echo", "params": [payload]},
+               {"jsonrpc": "2.0", "method": "echo", "params": [payload]},
+               {"id": None, "method": "echo", "params": [payload]},
+               {"jsonrpc": "2.0", "id": 1, "method": "echo", "params": {"p": payload}},
+               {"id": 1, "method": "echo", "params": {"p": payload}},
+               {"jsonrpc": "2.0", "id": payload, "method": "echo", "params": []}][form]
+        text = respell(json.dumps(req), spell)
         if depth % 3 == 2:
             # the same call as an entry of a batch: the whole body is rejected
             text = '[{"jsonrpc": "2.0", "id": 0, "method": "echo", "params": [0]}, %s, 5]' % text
@@ -263,10 +274,50 @@ bad_chars = gen.pick(st.sampled_from(["-", " ", "\n", "é", "/", "\0", "!", "٣"
                       st.characters(blacklist_categories=("Cs",)).filter(lambda c: not VALID.match(c)))
 
 
+_LOOKALIKES = {}
+
+
+def lookalikes():
+    """ASCII letter/digit -> non-ASCII characters that some Unicode folding (case folding, lower/upper-casing, NFKC/NFKD)
+    turns into it: a validation that folds before it tests (re.IGNORECASE, str.lower(), normalize()) lets them through"""
+    if not _LOOKALIKES:
+        import unicodedata
+        valid = set("abcdefghijklmnopqrstuvwxyzABCDEFGHIJKLMNOPQRSTUVWXYZ0123456789_.")
+        for cp in list(range(0x80, 0x3400)) + list(range(0xA000, 0xD800)) + list(range(0xF900, 0x10000)) + list(range(0x1D400, 0x1D800)) + list(range(0x1F100, 0x1F200)):
+            c = chr(cp)
+            for f in (str.casefold, str.lower, str.upper, lambda x: unicodedata.normalize("NFKC", x), lambda x: unicodedata.normalize("NFKD", x)):
+                t = f(c)
+                if len(t) == 1 and t in valid:
+                    _LOOKALIKES.setdefault(t, [])
+                    if c not in _LOOKALIKES[t]:
+                        _LOOKALIKES[t].append(c)
+        # the four characters Python's re.IGNORECASE matches against ASCII letters come first
+        for a, c in (("s", "\u017f"), ("S", "\u017f"), ("k", "\u212a"), ("K", "\u212a"), ("i", "\u0131"), ("I", "\u0130"), ("i", "\u0130"), ("I", "\u0131")):
+            lst = _LOOKALIKES.setdefault(a, [])
+            if c in lst:
+                lst.remove(c)
+            lst.insert(0, c)
+    return _LOOKALIKES
+
+
 @st.composite
 def random_on_cases(draw):
-    kind = draw(st.sampled_from(["canary-injected", "canary-injected", "unicode", "stdlib-injected", "empty"]))
-    if kind == "canary-injected":
+    kind = draw(st.sampled_from(["canary-injected", "canary-injected", "unicode", "stdlib-injected", "empty", "folded", "folded"]))
+    if kind == "folded":
+        # a resolvable path with one or two characters replaced by something that *folds* to them
+        base = draw(st.sampled_from(CANARIES + ["decimal.Decimal", "os.system", "builtins.eval", "vcanary.Cls", "vcanarypkg.sub.Deep"]))
+        table = lookalikes()
+        name = base
+        for _ in range(draw(st.integers(1, 2))):
+            spots = [i for i, ch in enumerate(name) if ch in table]
+            if not spots:
+                break
+            i = draw(st.sampled_from(spots))
+            alts = table[name[i]]
+            # the head of the list (what re.IGNORECASE folds) is drawn half of the time
+            j = 0 if draw(st.booleans()) else draw(st.integers(0, len(alts) - 1))
+            name = name[:i] + alts[j] + name[i + 1:]
+    elif kind == "canary-injected":
         base = draw(st.sampled_from(CANARIES))
         name = inject(base, draw(st.integers(0, len(base))), draw(bad_chars))
     elif kind == "stdlib-injected":
@@ -364,6 +415,8 @@ def off_cases(draw):
             "mc_config": draw(st.booleans()),
             "forced_version": draw(st.sampled_from([None, 1.0, 2.0])),
             "canary": isinstance(desc, list) and bool(desc) and desc[0] in CANARIES,
+            # how the payload reaches a server: the request's own form must not matter
+            "envelope": draw(st.sampled_from(["2.0", "2.0", "1.0", "1.0", "1.0-kw", "batch", "batch-mixed", "notification", "notification-1.0"])),
             "spell": draw(gen.pick(st.just(0), st.integers(1, 2 ** 13 - 1)))}
 
 
@@ -407,25 +460,53 @@ def oracle_off(case):
     else:
         registry = refmodel.Registry(jsonclass=False)
         disp, dm, registry, scfg = refmodel.make_dispatcher(case["version"], False, "funcs", registry)
-        text = respell(json.dumps({"jsonrpc": "2.0", "id": 1, "method": "echo", "params": [payload]}), case.get("spell", 0))
+        env = case.get("envelope", "2.0")
+        plain = json.loads(json.dumps(payload))
+        r20 = {"jsonrpc": "2.0", "id": 1, "method": "echo", "params": [payload]}
+        r10 = {"id": 2, "method": "echo", "params": [payload]}
+        want_log = [("echo", [plain], {})]
+        want_results = [{"args": [plain], "kwargs": {}}]
+        if env == "2.0":
+            req = r20
+        elif env == "1.0":
+            req = r10
+        elif env == "1.0-kw":
+            req = {"id": 3, "method": "echo", "params": {"p": payload}}
+            want_log = [("echo", [], {"p": plain})]
+            want_results = [{"args": [], "kwargs": {"p": plain}}]
+        elif env == "batch":
+            req = [r20, dict(r20, id=5)]
+            want_log, want_results = want_log * 2, want_results * 2
+        elif env == "batch-mixed":
+            req = [r10, r20, {"id": None, "method": "echo", "params": [payload]}]
+            want_log, want_results = want_log * 3, want_results * 2
+        elif env == "notification":
+            req = {"jsonrpc": "2.0", "method": "echo", "params": [payload]}
+            want_results = []
+        else:
+            req = {"id": None, "method": "echo", "params": [payload]}
+            want_results = []
+        text = respell(json.dumps(req), case.get("spell", 0))
         r, evs, imps, made = observe(lambda: disp._marshaled_dispatch(text))
         if r[0] != "ret":
             fail("C02/dispatcher-raised:%s" % type(r[1]).__name__, "dispatcher raised %r" % (r[1],))
-        if len(registry.log) != 1 or not gen.strict_eq(registry.log[0][1], [json.loads(json.dumps(payload))]):
-            fail("C08/off-not-verbatim", "the method received %r instead of the payload verbatim" % (registry.log,))
-        reply = json.loads(r[1])
-        if not gen.strict_eq(reply.get("result"), {"args": [json.loads(json.dumps(payload))], "kwargs": {}}):
-            fail("C08/off-not-verbatim", "the reply does not carry the payload verbatim: %r" % (r[1][:300],))
+        got_log = [(e[0], e[1], e[2]) for e in registry.log]
+        if len(got_log) != len(want_log) or any(g[0] != w[0] or not gen.strict_eq(g[1], w[1]) or not gen.strict_eq(g[2], w[2]) for g, w in zip(got_log, want_log)):
+            fail("C08/off-not-verbatim", "the method received %r instead of the payload verbatim (%s request)" % (registry.log, env))
+        reply = json.loads(r[1]) if r[1] else []
+        replies = reply if isinstance(reply, list) else [reply]
+        if len(replies) != len(want_results) or any(not isinstance(x, dict) or not gen.strict_eq(x.get("result"), w) for x, w in zip(replies, want_results)):
+            fail("C08/off-not-verbatim", "the reply to a %s request does not carry the payload verbatim: %r" % (env, r[1][:300]))
     if not silent(evs, imps, made):
         fail("C08/off-imported", "import/construction with use_jsonclass disabled: %r imports=%d made=%d" % (evs, imps, made))
-    return Info(nt=case["canary"], classes=["off", "side:" + case["side"]] + (["names-canary"] if case["canary"] else []),
+    return Info(nt=case["canary"], classes=["off", "side:" + case["side"]] + (["names-canary"] if case["canary"] else []) + (["envelope:" + case.get("envelope", "2.0")] if case["side"] == "server" else []),
                 sample={"payload": payload, "side": case["side"]})
 
 
 SUBS = [
     Sub("names", oracle_names, enumerate=names_cases, shards={"quick": 8, "thorough": 16},
         time_cap={"quick": 100, "thorough": 1500},
-        what="exhaustive short class names over a 14-symbol alphabet"),
+        what="exhaustive short class names over a 16-symbol alphabet"),
     Sub("random-on", oracle_random_on, strategy=lambda tier: random_on_cases(),
         budget={"quick": 5000, "thorough": 120000}, shards={"quick": 8, "thorough": 16},
         what="invalid names (Unicode, canary paths with an injected character) on load / client / server"),
